@@ -1,4 +1,4 @@
-"""Dispatcher: ./check <ID> [quick|thorough] | ./check <ID> --replay <file>"""
+"""Dispatcher: ./check <ID> [quick|thorough] | ./check <ID> --replay <file> | ./check --selftest"""
 from __future__ import annotations
 
 import os
@@ -14,6 +14,9 @@ def main(argv):
         print(__doc__)
         return 2
     prop = argv[1]
+    if prop == "--selftest":
+        from . import selftest
+        return selftest.main()
     tier = os.environ.get("VERIF_TIER", "quick")
     replay = None
     for a in argv[2:]:
